@@ -36,7 +36,7 @@ def ws(rx):
 
 def generate(repo):
     regions = [strip_comments(open(os.path.join(repo, *p)).read()) for p in
-               (("util", "utf8.hh"), ("util", "utf8.cc"), ("preprocess", "remove_invalid_utf8_main.cc"))]
+               (("util", "utf8.hh"), ("util", "utf8.cc"), ("preprocess", "remove_invalid_utf8_main.cc"), ("util", "spaces.cc"))]
     return "Src_utf8.v", with_fallback("Src_utf8.v", regions, lambda: strict(repo)[1])
 
 
@@ -117,12 +117,22 @@ def strict(repo):
     if riu_out != riu_delim:
         raise ValueError("remove_invalid_utf8 writes a terminator different from the delimiter it reads")
 
+    # util/spaces.cc: the bytes StripSpaces (commoncrawl_dedupe) removes from both ends of a line
+    sp = strip_comments(open(os.path.join(repo, "util", "spaces.cc")).read())
+    t = need(ws(r"const bool kSpaces \[ 256 \] = \{ ([01 ,\s]*) \} ;"), sp, "kSpaces table")
+    flags = [x.strip() for x in t.group(1).split(",") if x.strip() != ""]
+    if len(flags) != 256:
+        raise ValueError("kSpaces has %d initialisers, expected 256" % len(flags))
+    space_bytes = [i for i, x in enumerate(flags) if x == "1"]
+
     L = ["(* GENERATED by tools/gen/g_utf8.py from util/utf8.hh, util/utf8.cc, util/file_piece.hh,",
          "   preprocess/remove_invalid_utf8_main.cc -- do not edit *)",
-         "From Coq Require Import ZArith.", "Local Open Scope Z_scope.", ""]
+         "From Coq Require Import List ZArith.", "Import ListNotations.", "Local Open Scope Z_scope.", ""]
     for n, v in consts:
         L.append("Definition %s : Z := %s." % (n, "(%d)" % v if v < 0 else str(v)))
     L.append("(* remove_invalid_utf8: in.ReadLineOrEOF(line%s%s) *)" % ("" if r.group(2) is None else ", delim", "" if r.group(4) is None else ", strip_cr"))
+    L.append("(* util/spaces.cc: the indices i with kSpaces[i] *)")
+    L.append("Definition space_bytes : list Z := [%s]." % "; ".join(str(x) for x in space_bytes))
     L.append("Definition riu_delim : Z := %d." % riu_delim)
     L.append("Definition riu_strip_cr : bool := %s." % ("true" if riu_cr else "false"))
     return "Src_utf8.v", "\n".join(L) + "\n"
